@@ -361,6 +361,13 @@ class OrderedRingBuffer(Generic[FloatArray]):
         start = max(start, self.oldest_timestamp)
         end = min(end, self.newest_timestamp + self._sampling_period)
 
+        # Snap both ends (up) to the slot grid, so the window holds exactly the slots
+        # whose timestamps are in [start, end).  Otherwise two different timestamps can
+        # map to the same internal index (which means "the whole buffer" below) and the
+        # gap mask would be shifted against the data for unaligned timestamps.
+        start = self._ceil_timestamp(start)
+        end = self._ceil_timestamp(end)
+
         if start >= end:
             return np.array([]) if isinstance(self._buffer, np.ndarray) else []
 
@@ -597,6 +604,22 @@ class OrderedRingBuffer(Generic[FloatArray]):
         )
 
         return normalized_timestamp
+
+    def _ceil_timestamp(self, timestamp: datetime) -> datetime:
+        """Return the first timestamp on the slot grid not earlier than `timestamp`.
+
+        Args:
+            timestamp: The timestamp to snap to the slot grid.
+
+        Returns:
+            The snapped timestamp.
+        """
+        num_samples, remainder = divmod(
+            (timestamp - self._time_index_alignment), self._sampling_period
+        )
+        if remainder != timedelta(0):
+            num_samples += 1
+        return self._time_index_alignment + num_samples * self._sampling_period
 
     def wrap(self, index: int) -> int:
         """Normalize the given index to fit in the buffer by wrapping it around.
